@@ -81,6 +81,12 @@ static void one(int type, unsigned long long bits) {
     sb.length = 0; if (sb.string) sb.string[0] = 0;
     if (!wasmCWriteLiteral(&sb, vt, ins.value)) { n_bad++; if (n_bad < 20) printf("LITMISMATCH type=%c bits=%llx text=<writer failed>\n", type, bits); return; }
     ok = eval_literal(sb.string, type, &got);
+#ifdef C07_BE_FORCED
+    /* forced big-endian translator on a little-endian host: the float immediate reader must apply exactly one byte
+     * reversal of the immediate's width; integer immediates (LEB128) are unaffected */
+    if (type == 'f') bits = (unsigned long long)__builtin_bswap32((unsigned int)bits);
+    else if (type == 'F') bits = __builtin_bswap64(bits);
+#endif
     if (strpbrk(sb.string, ".eIr-")) n_nonint++;
     if (!ok || got != bits) { n_bad++; if (n_bad < 20) printf("LITMISMATCH type=%c bits=%llx text=%s evaluates=%llx%s\n", type, bits, sb.string, got, ok ? "" : " (unparsable)"); }
 }
